@@ -252,7 +252,8 @@ func (s *Segment) DocsMatchingTerms(terms []segment.Term) (*roaring.Bitmap, erro
 		var dict *Dictionary
 		for i, term := range terms {
 			thisField := term.Field()
-			if thisField != lastField {
+			// i == 0: lastField starts out as "", which is a possible field name
+			if i == 0 || thisField != lastField {
 				dict, err = s.dictionary(term.Field())
 				if err != nil {
 					return nil, err
